@@ -36,6 +36,7 @@ type Report struct {
 	violations []string
 	known      []string
 	vacuous    []string
+	siteUnknown int // site covers the solver did not decide within the first stage (not fatal)
 	byBackend  map[string]int
 	solverTime float64
 	coverOK    int
@@ -155,8 +156,16 @@ func (r *Report) classify(obls, covers, canaries []*Obligation, res map[*Obligat
 			r.coverOK++
 		case "unsat":
 			r.vacuous = append(r.vacuous, o.Name)
-			r.say("VACUOUS: %s: assumptions are contradictory", o.Name)
+			if o.Site {
+				r.say("VACUOUS: %s: the call site is unreachable under the contracts (every clause about it holds trivially)", o.Name)
+			} else {
+				r.say("VACUOUS: %s: assumptions are contradictory", o.Name)
+			}
 		default:
+			if o.Site {
+				r.siteUnknown++
+				continue
+			}
 			// quantified assumptions: satisfiability not decided; reported, not fatal
 			r.undecided = append(r.undecided, o.Name+": cover "+s.Status)
 		}
